@@ -152,8 +152,20 @@ def run(model, col, tier):
     lk_ = [n for n in ast.walk(vb) if isinstance(n, ast.Subscript) and unparse(n.value).endswith("opcodes") and isinstance(n.slice, ast.Name)]
     mn_ = lk_[0].slice.id if lk_ else "opCode"
     fs = [v for v in find_assign(vb, mn_) if isinstance(v, ast.JoinedStr)]
-    suffix_if = [n for n in ast.walk(vb) if isinstance(n, ast.If) and "operationType" in unparse(n.test)
-                 and any(isinstance(x, ast.AugAssign) and isinstance(x.target, ast.Name) and x.target.id == mn_ for s in n.body for x in ast.walk(s))]
+    from ..sem import local_env as _le63, resolve as _rs63
+    import copy as _copy63
+
+    # the condition may be held in a local (`needsSignSuffix = operationType == "i32" and bi.OpCode not in signAgnostic`):
+    # tests are read with single-assignment locals in place (the type tag and the signedness flag stay names)
+    env63 = {k_: v_ for k_, v_ in _le63(vb, allow_impure=True).items() if k_ not in ("operationType", "unsigned", mn_) and not isinstance(v_, ast.JoinedStr)}
+    suffix_if = []
+    for n in ast.walk(vb):
+        if isinstance(n, ast.If) and any(isinstance(x, ast.AugAssign) and isinstance(x.target, ast.Name) and x.target.id == mn_ for s in n.body for x in ast.walk(s)):
+            rt_ = _rs63(n.test, env63)
+            if "operationType" in unparse(rt_):
+                n2 = _copy63.copy(n)
+                n2.test = rt_
+                suffix_if.append(n2)
 
     def suffix_of(sif_, uns_):
         """the text appended to the mnemonic inside the suffix branch for a signed / unsigned operation"""
